@@ -1,6 +1,6 @@
 SPECIFICATION Spec
 CONSTANTS MaxLen = 2 MaxN = 6 Infinite = TRUE MaxOut = 5
-  Vals = "nat" Stops = TRUE MaxRuns = 1
+  Vals = "nat" Stops = TRUE MaxRuns = 1 MaxLead = 1
   Alphabet <- AlphaC02Ext
   Must <- ExtC02
   Pairs <- OnlyPairs
@@ -10,6 +10,7 @@ INVARIANT NoWorkBeforeDemand
 INVARIANT PullOnlyWhenDrained
 INVARIANT LazyEqDen
 INVARIANT Buffers
+INVARIANT LeadUntouched
 INVARIANT SliceIsPySlice
 PROPERTY NoPullAfterStop
 CONSTRAINT Bounded
